@@ -3,6 +3,7 @@ package rules
 import (
 	"fmt"
 	"go/token"
+	"go/types"
 	"strings"
 
 	"golang.org/x/tools/go/ssa"
@@ -21,6 +22,7 @@ func c03(c *eng.Ctx, r *eng.Report) {
 		"R3.5 state commit then node-database commit, both error-checked, before success is reported and before the head moves (shared with C05 R5.4); " +
 		"R3.6 errors of batch writes and commits are consumed at every call site; R3.8 an entry leaves an account's flush set (dirtyStorage) only in updateTrie, as it is written to the storage trie; R3.7 the flag that makes Commit write an account's code blob is raised unconditionally (constant true) by every function that installs code bytes, lowered only in Commit after InsertBlob of those bytes, and never computed. " +
 		"R3.10 a node leaves the dirty-node cache only for a stated reason: uncache deletes the very key it was called with (the committed root, and its children by recursion over childs()), Cap deletes the oldest flush-list entry after having put it into the batch, dereference deletes a child whose reference count dropped to zero — no other function deletes from NodeDatabase.nodes, so nodes of a state that is committed to memory but not yet flushed cannot be dropped by flushing another one; " +
+		"R3.12 the stored form of a branch node carries all 17 entries: in the serialisers of fullNode and rawFullNode (EncodeRLP and the trie-package helpers they call) the entry array is never narrowed to a part of itself — the 17th entry is the value stored at the branch, a key that is a proper prefix of another (storage keys are raw strings here) lives only there; " +
 		"R3.11 Commit removes an account from the trie only if it self-destructed or was written in this block and is empty: deleteAccountObject is reached only across the `suicided` or the `isDirty` outcome — an account that was merely read looks empty while its storage cache is cold (empty() does not look at the storage root), and deleting it drops the account and all its slots from the committed root; " +
 		"R3.9 an account object that was written is committed: every cached object is either in the dirty set Commit iterates or has its one-shot onDirty hook armed (the C04 rule R4.8 applied here: removal from the dirty set re-arms the hook or drops the object, a replaced dirty set comes with a replaced object cache, the hook is cleared only after it was called). " +
 		"Not decided: LevelDB batch atomicity and durability (trusted), that every value readable before is readable after, arbitrary physical crash points."
@@ -36,6 +38,7 @@ func c03(c *eng.Ctx, r *eng.Report) {
 	c04DirtyOrArmedAs(c, r, "R3.9")
 	c03NodeCacheDeletes(c, r)
 	c03CommitDeletes(c, r)
+	c03AllSeventeen(c, r)
 }
 
 func batchCalls(fn *ssa.Function, method string) []*ssa.Call {
@@ -592,4 +595,71 @@ func c03CommitDeletes(c *eng.Ctx, r *eng.Report) {
 		}
 	}
 	r.Check(n >= 1, rule, "commit-delete:sites", "", fmt.Sprintf("%d deleteAccountObject calls in Commit", n), "no deleteAccountObject call found in AccountDB.Commit")
+}
+
+// c03AllSeventeen: see R3.12.
+func c03AllSeventeen(c *eng.Ctx, r *eng.Report) {
+	const rule = "R3.12"
+	r.Min(rule, 2)
+	for _, name := range []string{"(*fullNode).EncodeRLP", "rawFullNode.EncodeRLP"} {
+		ent := c.Func(triePkg, name)
+		if !r.Anchor(ent != nil, rule, "trie."+name) {
+			continue
+		}
+		cone := c.ConeOf([]*ssa.Function{ent}, func(fn *ssa.Function) bool { return eng.FuncPkgPath(fn) == eng.Mod+"/src/"+triePkg })
+		bad := ""
+		n := 0
+		for _, fn := range cone.Sorted() {
+			if eng.FuncPkgPath(fn) != eng.Mod+"/src/"+triePkg || fn.Blocks == nil {
+				continue
+			}
+			n++
+			sixteenth := false
+			var narrow []*ssa.Slice
+			for _, b := range fn.Blocks {
+				for _, in := range b.Instrs {
+					switch x := in.(type) {
+					case *ssa.IndexAddr:
+						if k, ok := eng.ConstInt(x.Index); ok && k == 16 && is17(x.X.Type()) {
+							sixteenth = true
+						}
+					case *ssa.Index:
+						if k, ok := eng.ConstInt(x.Index); ok && k == 16 && is17(x.X.Type()) {
+							sixteenth = true
+						}
+					case *ssa.Slice:
+						if !is17(x.X.Type()) {
+							continue
+						}
+						lo, hi := int64(0), int64(17)
+						if x.Low != nil {
+							lo, _ = eng.ConstInt(x.Low)
+						}
+						if x.High != nil {
+							if k, ok := eng.ConstInt(x.High); ok {
+								hi = k
+							} else {
+								hi = -1
+							}
+						}
+						if lo != 0 || hi != 17 {
+							narrow = append(narrow, x)
+						}
+					}
+				}
+			}
+			if len(narrow) > 0 && !sixteenth {
+				bad = eng.FuncName(fn) + " at " + c.Pos(narrow[0].Pos())
+			}
+		}
+		r.Check(bad == "", rule, "all-seventeen:"+name, c.Pos(ent.Pos()), fmt.Sprintf("%d trie functions in the serialiser, the 17-entry array is never narrowed", n), "the serialiser of a branch node narrows its 17 entries ("+bad+") and never touches entry 16: the value stored at the branch is replaced by an empty string in the bytes written to the database and in the node's hash — a contract storage key that is a proper prefix of another key reads back empty after a reopen, and the state root no longer commits to it")
+	}
+}
+
+func is17(t types.Type) bool {
+	if p, ok := t.Underlying().(*types.Pointer); ok {
+		t = p.Elem()
+	}
+	a, ok := t.Underlying().(*types.Array)
+	return ok && a.Len() == 17
 }
